@@ -33,4 +33,9 @@ func init() {
 		Decides:    "ordering/completion mechanisms of fetch and push: refs saved only after objects were fetched successfully (C09-a); the upload-pack session ends only when the receiver reports all expected commits (C09-b); a push session is created only after the shallow-commit check (C09-c); ref writes go through pkg/ref's logging API (C10-c).",
 		NotDecided: "completeness of the transferred history, object identity on both sides, idempotence of a repeated fetch/push.",
 	}
+	props["C12"] = &propSpec{
+		Rules:      []string{"C12-a", "C12-b", "C12-c", "C12-d", "C12-e"},
+		Decides:    "structural mechanisms of prune safety: roots are seeded from an unfiltered ref listing (C12-a); no ref/object-store error is dropped while marking (C12-b); every delete lies under a not-marked edge (C12-c); sort.Search hits are bounds- and equality-checked before marks are written (C12-d); commits are deleted last (C12-e).",
+		NotDecided: "that the marked set equals the reachable set for every repository (graph-valued).",
+	}
 }
